@@ -789,6 +789,11 @@ class Inliner:
 
             def visit_Subscript(self, n):
                 self.generic_visit(n)
+                if isinstance(n.ctx, ast.Load) and isinstance(n.value, (ast.Tuple, ast.List)) and isinstance(n.slice, ast.Constant) and type(n.slice.value) is int \
+                        and not any(isinstance(x, ast.Starred) for x in n.value.elts) and -len(n.value.elts) <= n.slice.value < len(n.value.elts) \
+                        and all(is_const_expr(x) or simple_arg(x) for x in n.value.elts):
+                    count[0] += 1
+                    return n.value.elts[n.slice.value]      # (a, b, c)[1] == b  (the other elements are constants / plain names)
                 if isinstance(n.ctx, ast.Load):
                     r = table_lookup_to_conditional(n)
                     if r is not None:
@@ -799,6 +804,11 @@ class Inliner:
             def visit_Call(self, n):
                 self.generic_visit(n)
                 f = n.func
+                from .normalize2 import defunctionalize_call
+                r = defunctionalize_call(n, sc.resolve)
+                if r is not None:
+                    count[0] += 1
+                    return self.visit(at(r, n))
                 if isinstance(f, ast.Attribute) and f.attr == "format" and isinstance(f.value, ast.Constant) and isinstance(f.value.value, str):
                     spread_mapping(n, root)
                     j = format_to_joined(f.value.value, n)
@@ -1412,9 +1422,13 @@ def normalize(project) -> List[str]:
     except OSError:
         return []
     renamed = recover_renamed_anchors(project)
+    from .normalize2 import simplify_defensive, recover_loops, hoist_lambda_calls
     for fi in project.funcs.values():
         desugar(fi.node)
         inline_callable_aliases(fi.node)
+        hoist_lambda_calls(fi.node)
+        simplify_defensive(fi.node)
+        recover_loops(fi.node)
     inl = Inliner(project, base_funcs, base_consts)
     inl.log += renamed
     if not inl.new_funcs and not inl.new_consts:
@@ -1423,6 +1437,8 @@ def normalize(project) -> List[str]:
     inl.run()
     for fi in project.funcs.values():
         desugar(fi.node)
+        simplify_defensive(fi.node)
+        recover_loops(fi.node)
         inline_explaining_variables(fi.node)
         lift_conditionals(fi.node)
         split_assignments(fi.node)
